@@ -418,7 +418,8 @@ def _case(draw):
         if multi:
             y0 = [[c] * A for c in y0]
         case["prior_fit"] = {"X": X0, "y": y0}
-    if comp == "SKC" and K >= 2 and draw(st.integers(0, 3)) == 0:
+    if comp == "SKC" and K >= 2 and fit_method == "fit" and \
+            draw(st.integers(0, 3)) == 0:
         # the wrapped scikit-learn estimator was trained by the caller before
         # it was wrapped (every class seen); fit must not keep that model
         dq = len(Xq[0])
